@@ -7,11 +7,13 @@ import (
 	"crypto/sha256"
 	"encoding/json"
 	"fmt"
+	"math/big"
 	"os"
 	"path/filepath"
 	"sort"
 	"strings"
 
+	ml "github.com/IBM/mathlib"
 	bbs "github.com/hyperledger/aries-framework-go/component/kmscrypto/crypto/primitive/bbs12381g2pub"
 
 	"verifharness/hx"
@@ -633,6 +635,17 @@ func runCaseOnce(kind string, c *Case, withCoq bool, put func(*hx.Record)) {
 				pf[a.Pos] ^= byte(a.Byte)
 				expect = vReject
 			}
+		case "addq": // the 32-byte scalar at Pos replaced by the encoding of its value + the group order
+			pf = append([]byte{}, proof...)
+			if a.Pos+32 <= len(pf) {
+				v := new(big.Int).SetBytes(pf[a.Pos : a.Pos+32])
+				v.Add(v, groupOrder())
+
+				if v.BitLen() <= 256 {
+					v.FillBytes(pf[a.Pos : a.Pos+32])
+					expect = vReject
+				}
+			}
 		}
 
 		vm, okP := withSentinel(msgsOf(supplied))
@@ -798,6 +811,8 @@ func coqAttack(a Attack) string {
 		return "AKey"
 	case "alter":
 		return fmt.Sprintf("(AAlter %s %d)", hx.CoqNat(a.Pos), a.Byte)
+	case "addq":
+		return fmt.Sprintf("(AAddQ %s)", hx.CoqNat(a.Pos))
 	case "prefix":
 		return fmt.Sprintf("(APrefix %s %d)", hx.CoqNat(a.Pos), a.Byte)
 	case "forge":
@@ -900,9 +915,9 @@ func coqCaseCred(c *Case, o *Obs, proof []byte, cred string) string {
 		}
 	}
 
-	return fmt.Sprintf("{| c_msgs := %s; c_R := %s; c_nonce := %d; c_key := %d; c_payload := %s; c_len := %d; c_proof := %s; c_intact := %s; c_ks := %s; c_signer := %s; c_sigpfx := %s; c_pfx := %s; c_gd := %d; c_tr := %s; c_strict := %s; c_cred := %s; c_att := %s |}",
+	return fmt.Sprintf("{| c_msgs := %s; c_R := %s; c_nonce := %d; c_key := %d; c_payload := %s; c_len := %d; c_proof := %s; c_intact := %s; c_ks := %s; c_signer := %s; c_sigpfx := %s; c_pfx := %s; c_gd := %d; c_tr := %s; c_q := %s; c_strict := %s; c_cred := %s; c_att := %s |}",
 		coqPlainNList(withLegacy(c.Msgs)), coqNatList(c.R), c.Nonce, c.Key, coqPlainNList(o.Payload), o.ProofLen, pb, hx.CoqBool(o.Intact),
-		ksTerm, hx.CoqNat(c.Signer), coqPlainNList(o.KeyPrefix), coqPlainNList(o.ProofPfx), o.GensDistinct, hx.CoqList(trs), hx.CoqBool(strict), credTerm, hx.CoqList(att))
+		ksTerm, hx.CoqNat(c.Signer), coqPlainNList(o.KeyPrefix), coqPlainNList(o.ProofPfx), o.GensDistinct, hx.CoqList(trs), groupOrder().String(), hx.CoqBool(strict), credTerm, hx.CoqList(att))
 }
 
 // ---------- generators ----------
@@ -1123,6 +1138,41 @@ func alterAttacks(c *Case, r *hx.Rng, k int, all bool) []Attack {
 		}
 
 		out = append(out, Attack{Kind: "alter", Label: fieldOf(offs, names, pos), Pos: pos, Byte: xorMask(r)})
+	}
+
+	return out
+}
+
+// groupOrder: the order of the scalar field as the curve library has it.
+func groupOrder() *big.Int {
+	q, ok := new(big.Int).SetString(ml.Curves[ml.BLS12_381_BBS].GroupOrder.String(), 16)
+	if !ok {
+		panic("group order")
+	}
+
+	return q
+}
+
+// addqAttacks: every response scalar of both sub-proofs re-encoded as value + group order (the same scalar, other bytes).
+func addqAttacks(c *Case) []Attack {
+	n := len(c.Msgs)
+	offs, names, total := proofLayout(n, n-len(dedup(c.R)))
+
+	var out []Attack
+
+	for i, nm := range names {
+		if nm != "resp1" && nm != "resp2" {
+			continue
+		}
+
+		end := total
+		if i+1 < len(offs) {
+			end = offs[i+1]
+		}
+
+		for pos := offs[i]; pos+32 <= end; pos += 32 {
+			out = append(out, Attack{Kind: "addq", Label: "noncanonical-" + nm, Pos: pos})
+		}
 	}
 
 	return out
@@ -1465,6 +1515,7 @@ func main() {
 		c := &Case{Level: lvl, Msgs: randomMsgs(r, n), R: randomSubset(r, n), Nonce: r.Intn(4), Key: r.Intn(3), Bytes: true}
 		c.Attacks = append([]Attack{{Kind: "honest"}}, structuralAlters(c)...)
 		c.Attacks = append(c.Attacks, alterAttacks(c, r, 24, false)...)
+		c.Attacks = append(c.Attacks, addqAttacks(c)...)
 		runCase("alter", c, tr)
 	}
 
